@@ -119,7 +119,7 @@ def install(reg):
         params=[("self", SD), ("node_id", TInt), ("compute", TBool), ("greedy_asp_minification", TBool), ("simulation_minification", TBool), ("pint_minification", TBool)],
         defaults={"compute": False, "greedy_asp_minification": True, "simulation_minification": True, "pint_minification": False},
         result_type=LS, properties=("C14", "C08", "C01", "C15", "C16"),
-        requires=[lambda c: S.inv_all(c.self), lambda c: S.valid(c.self, c.node_id)],
+        requires=[lambda c: S.inv_all(c.self), lambda c: S.valid(c.self, c.node_id), lambda c: z3.Not(c.pint_minification), lambda c: z3.And(c.self.cfg_attractor_candidates_limit >= 0, c.self.cfg_minimum_simulation_budget >= 0)],
         modifies={"self": CACHEF + ["cand", "seeds"]},
         may_raise={"RuntimeError": {"modifies": {"self": CACHEF}, "when": lambda c: c.compute},
                    "KeyError": {"only_when": lambda c: z3.And(z3.Not(c.compute), OptLS.is_none(c.self.cand[c.node_id]), OptLS.is_none(c.self.seeds[c.node_id]))}},
@@ -143,7 +143,7 @@ def install(reg):
         params=[("self", SD), ("node_id", TInt), ("compute", TBool), ("symbolic_fallback", TBool)],
         defaults={"compute": False, "symbolic_fallback": False},
         result_type=LS, properties=("C14", "C01", "C15", "C16", "C12"),
-        requires=[lambda c: S.inv_all(c.self), lambda c: S.valid(c.self, c.node_id)],
+        requires=[lambda c: S.inv_all(c.self), lambda c: S.valid(c.self, c.node_id), lambda c: z3.And(c.self.cfg_attractor_candidates_limit >= 0, c.self.cfg_minimum_simulation_budget >= 0)],
         modifies={"self": CACHEF + ["cand", "seeds", "sets"]},
         may_raise={"RuntimeError": {"modifies": {"self": CACHEF}, "when": lambda c: z3.And(c.compute, z3.Not(c.symbolic_fallback))},
                    "KeyError": {"only_when": lambda c: z3.And(z3.Not(c.compute), OptLS.is_none(c.self.seeds[c.node_id]))}},
@@ -181,7 +181,7 @@ def install_sets(reg):
         "biobalm.succession_diagram.SuccessionDiagram.node_attractor_sets",
         params=[("self", SD), ("node_id", TInt), ("compute", TBool)], defaults={"compute": False},
         result_type=LV, properties=("C12", "C14", "C16"),
-        requires=[lambda c: S.inv_all(c.self), lambda c: S.valid(c.self, c.node_id)],
+        requires=[lambda c: S.inv_all(c.self), lambda c: S.valid(c.self, c.node_id), lambda c: z3.And(c.self.cfg_attractor_candidates_limit >= 0, c.self.cfg_minimum_simulation_budget >= 0)],
         modifies={"self": CACHEF + ["cand", "seeds", "sets"]},
         may_raise={"RuntimeError": {"modifies": {"self": CACHEF}, "when": lambda c: c.compute},
                    "KeyError": {"only_when": lambda c: z3.And(z3.Not(c.compute), OptLV.is_none(c.self.sets[c.node_id]))}},
